@@ -35,10 +35,15 @@ import (
 	"time"
 
 	"github.com/tetratelabs/wazero"
+	"github.com/tetratelabs/wazero/api"
+	"github.com/tetratelabs/wazero/experimental"
+	"github.com/tetratelabs/wazero/experimental/sock"
+	"github.com/tetratelabs/wazero/imports/wasi_snapshot_preview1"
 	"pgregory.net/rapid"
 
 	"verif/internal/evid"
 	"verif/internal/wasiproxy"
+	"verif/internal/wasmenc"
 	"verif/internal/wz"
 )
 
@@ -135,6 +140,11 @@ const (
 type caseT struct {
 	Script   []call `json:"script"`
 	Children []int  `json:"children,omitempty"` // indices into childPool
+	// PreUse: before the guests under test are instantiated, the SAME ModuleConfig value is
+	// first used to instantiate another guest with a context that carries experimental
+	// settings: "sock" (a pre-opened TCP listener on 127.0.0.1:0), "notifier" (close
+	// notifier), "sock+notifier"; a "-keep" suffix leaves that guest open. "" = not used before.
+	PreUse string `json:"pre_use,omitempty"`
 	// Concurrent, when set, makes this a case of TestConcurrentClocks (Script is unused)
 	Concurrent *concCase `json:"concurrent,omitempty"`
 	// filled in when a violation is written out; ignored by replay
@@ -215,9 +225,9 @@ var (
 	oddSleeps   = []uint64{1 << 63, ^uint64(0)} // become non-positive durations
 	ptrPool     = []uint64{mRes, mRes + 8, mBuf, mBuf2, mIovs, mIovs + 16, mStr, mSubs, mOutTxt, 0, 4, 65528, 65532, 65535, 65536, 1 << 31, 0xfffffff8, 0xffffffff}
 	lenPool     = []uint64{0, 1, 2, 7, 8, 16, 24, 48, 64, 100, 1000, 4096, 65536, 0xffffffff}
-	i64Pool     = []uint64{0, 1, 2, 1000, 1 << 20, 1 << 32, 1<<63 - 1, 1 << 63, ^uint64(0)}
+	i64Pool     = []uint64{0, 1, 2, 1000, 1 << 20, 1 << 32, 1<<63 - 1, 1 << 63, ^uint64(0), ^uint64(0), ^uint64(0), 0xffffffff00000000, 0xdeadbeef00000001}
 	fdPool      = []uint64{0, 0, 1, 1, 2, 2, 3, 3, 4, 5, 6, 7, 8, 100, 1 << 31, 0xffffffff}
-	rightsPool  = []uint64{0, 2, 64, 66, ^uint64(0)}
+	rightsPool  = []uint64{0, 2, 64, 66, ^uint64(0), ^uint64(0), 0xffffffff00000002}
 )
 
 func hexOf(b []byte) string { return hex.EncodeToString(b) }
@@ -267,7 +277,8 @@ func genGeneric(t *rapid.T, sigs map[string]wasiproxy.Sig, name string) call {
 }
 
 var wellFormed = []string{
-	"clock_time_get", "clock_time_get", "clock_time_get", "clock_time_get", "clock_time_get", "clock_time_get", "clock_res_get",
+	"clock_time_get", "clock_time_get", "clock_time_get", "clock_time_get", "clock_time_get", "clock_time_get", "clock_res_get", "clock_res_get", "clock_res_get",
+	"fd_advise", "fd_allocate", "fd_filestat_set_size",
 	"random_get", "random_get", "random_get", "random_get", "random_get", "random_get", "random_get",
 	"args_sizes_get", "args_get", "environ_sizes_get", "environ_get",
 	"fd_read", "fd_read", "fd_write", "fd_write", "fd_pread", "fd_pwrite",
@@ -288,7 +299,13 @@ func genWellFormed(t *rapid.T, sigs map[string]wasiproxy.Sig) call {
 	case "clock_time_get":
 		c.Args = []uint64{uint64(rapid.SampledFrom([]int{0, 0, 1, 1, 2, 3}).Draw(t, "clock")), rapid.SampledFrom(i64Pool).Draw(t, "precision"), resPtr()}
 	case "clock_res_get":
-		c.Args = []uint64{uint64(rapid.IntRange(0, 4).Draw(t, "clock")), resPtr()}
+		c.Args = []uint64{uint64(rapid.SampledFrom([]int{0, 0, 1, 1, 2, 3, 4}).Draw(t, "clock")), resPtr()}
+	case "fd_advise":
+		c.Args = []uint64{smallFd(t, "fd"), rapid.SampledFrom(i64Pool).Draw(t, "offset"), rapid.SampledFrom(i64Pool).Draw(t, "len"), uint64(rapid.IntRange(0, 6).Draw(t, "advice"))}
+	case "fd_allocate":
+		c.Args = []uint64{smallFd(t, "fd"), rapid.SampledFrom(i64Pool).Draw(t, "offset"), rapid.SampledFrom(i64Pool).Draw(t, "len")}
+	case "fd_filestat_set_size":
+		c.Args = []uint64{smallFd(t, "fd"), rapid.SampledFrom(i64Pool).Draw(t, "size")}
 	case "random_get":
 		c.Args = []uint64{rapid.SampledFrom([]uint64{mBuf, mBuf2, mRes}).Draw(t, "buf"), rapid.SampledFrom([]uint64{1, 7, 8, 16, 33, 100, 1000, 4096}).Draw(t, "len")}
 	case "args_sizes_get", "environ_sizes_get":
@@ -402,6 +419,10 @@ func signatures() (map[string]wasiproxy.Sig, []string) {
 	})
 	return sigTable, sigNames
 }
+
+var preUseKinds = []string{"", "", "", "", "", "sock", "sock-keep", "notifier", "sock+notifier", "sock+notifier-keep"}
+
+func genPreUse(t *rapid.T) string { return rapid.SampledFrom(preUseKinds).Draw(t, "pre-use") }
 
 func genScript(t *rapid.T) []call {
 	sigs, names := signatures()
@@ -525,6 +546,12 @@ type runResult struct {
 	Trace    []string `json:"trace"`
 	Problems []string `json:"problems,omitempty"` // direct oracle failures (leaks etc.)
 	Slow     []string `json:"slow,omitempty"`     // calls that took suspiciously long (reported only if they repeat)
+	// InGuest is the result of the same script compiled into ONE guest function (all calls on
+	// one call stack): errnos, outcome, digest of the final memory.
+	InGuest []string `json:"in_guest,omitempty"`
+	errnos  []uint32 // errno of every executed call (prologue included); only when all outcomes were ok
+	allOK   bool
+	final   []byte // memory at the end
 }
 
 func findMarkers(region []byte, base int, markers [][]byte, what string, probs *[]string) {
@@ -536,8 +563,7 @@ func findMarkers(region []byte, base int, markers [][]byte, what string, probs *
 }
 
 // runScript runs the fixed prologue and the script on a fresh proxy instance.
-func runScript(p *wasiproxy.Proxy, sc []call, markers [][]byte) runResult {
-	var res runResult
+func runScript(p *wasiproxy.Proxy, sc []call, markers [][]byte) (res runResult) {
 	maxMarker := 0
 	for _, m := range markers {
 		if len(m) > maxMarker {
@@ -613,8 +639,18 @@ func runScript(p *wasiproxy.Proxy, sc []call, markers [][]byte) runResult {
 		}
 		sb.WriteByte(']')
 		res.Trace = append(res.Trace, sb.String())
+		res.errnos = append(res.errnos, errno)
+		if out.Kind != wz.KOK {
+			res.allOK = false
+		}
 		return errno, out
 	}
+	res.allOK = true
+	defer func() {
+		if cur, ok := mem.Read(0, memSize); ok {
+			res.final = append([]byte{}, cur...)
+		}
+	}()
 	// prologue: no descriptor beyond stdio, no preopen
 	for fd := uint64(3); fd <= 8; fd++ {
 		if e, out := step("pre", call{Fn: "fd_fdstat_get", Args: []uint64{fd, mRes}}); out.Kind == wz.KOK && e != wasiproxy.EBADF {
@@ -658,37 +694,215 @@ func runScript(p *wasiproxy.Proxy, sc []call, markers [][]byte) runResult {
 	return res
 }
 
-// runEngine runs the script under the default ModuleConfig on the engine: runtime A with two
-// instances (both created before either runs), and, if full, runtime B with one.
-func runEngine(engine string, sc []call, markers [][]byte, full bool) ([]runResult, []string, error) {
+// prologueCalls are made before every script: no descriptor beyond stdio, no preopen.
+func prologueCalls() []call {
+	var out []call
+	for fd := uint64(3); fd <= 8; fd++ {
+		out = append(out, call{Fn: "fd_fdstat_get", Args: []uint64{fd, mRes}})
+	}
+	return append(out, call{Fn: "fd_prestat_get", Args: []uint64{3, mRes}})
+}
+
+// programBinary compiles prologue+script into one guest function "run" that makes all calls
+// on one call stack (constants as arguments, the script's memory writes as stores) and
+// returns the errno of every call. This is how a real guest calls WASI: consecutive host
+// calls share the guest's stack, unlike the call-by-call proxy.
+func programBinary(sc []call) ([]byte, int) {
+	sigs, names := signatures()
+	idx := map[string]uint32{}
+	m := &wasmenc.Module{}
+	for i, n := range names {
+		idx[n] = uint32(i)
+		m.ImportFunc(wasi_snapshot_preview1.ModuleName, n, sigs[n].Params, sigs[n].Results)
+	}
+	b := wasmenc.NewB()
+	var results []byte
+	for _, c := range append(prologueCalls(), sc...) {
+		sg, ok := sigs[c.Fn]
+		if !ok || len(c.Args) != len(sg.Params) {
+			continue
+		}
+		for _, w := range c.Mem {
+			data, _ := hex.DecodeString(w.Hex)
+			if uint64(w.Off)+uint64(len(data)) > memSize {
+				continue // the proxy run ignores such a write as well
+			}
+			k := 0
+			for ; k+8 <= len(data); k += 8 {
+				b.I32Const(int32(w.Off)+int32(k)).I64Const(int64(binary.LittleEndian.Uint64(data[k:]))).Mem(0x37, 0, 0)
+			}
+			for ; k < len(data); k++ {
+				b.I32Const(int32(w.Off)+int32(k)).I32Const(int32(data[k])).Mem(0x3a, 0, 0)
+			}
+		}
+		for k, t := range sg.Params {
+			if t == api.ValueTypeI64 {
+				b.I64Const(int64(c.Args[k]))
+			} else {
+				b.I32Const(int32(uint32(c.Args[k])))
+			}
+		}
+		if c.Indirect {
+			b.I32Const(int32(idx[c.Fn])).CallIndirect(m.AddType(sg.Params, sg.Results), 0)
+		} else {
+			b.Call(idx[c.Fn])
+		}
+		if len(sg.Results) == 0 {
+			b.I32Const(-1) // proc_exit does not return
+		}
+		results = append(results, api.ValueTypeI32)
+	}
+	fi := m.AddFunc(nil, results, nil, b.Bytes())
+	m.ExportFunc("run", fi)
+	all := make([]uint32, len(names))
+	for i := range all {
+		all[i] = uint32(i)
+	}
+	m.Tables = [][]byte{wasmenc.TableType(0x70, uint32(len(names)), int64(len(names)))}
+	m.Elems = [][]byte{wasmenc.ActiveElemFuncs(0, all)}
+	m.Mems = [][]byte{wasmenc.Limits(1, 1, false)}
+	m.Exports = append(m.Exports, wasmenc.Export{Name: "memory", Kind: wasmenc.KMem, Idx: 0})
+	return m.Encode(), len(results)
+}
+
+// runInGuest instantiates the compiled script and runs it; the result is rendered as lines.
+func runInGuest(ctx context.Context, rt wazero.Runtime, cm wazero.CompiledModule, mc wazero.ModuleConfig) (lines []string, errnos []uint32, final []byte, err error) {
+	mod, err := rt.InstantiateModule(ctx, cm, mc)
+	if err != nil {
+		return nil, nil, nil, err
+	}
+	defer mod.Close(ctx)
+	mod.Memory().Write(0, initialImage())
+	rs, out := wz.SafeCall(ctx, mod.ExportedFunction("run"))
+	if cur, ok := mod.Memory().Read(0, memSize); ok {
+		final = append([]byte{}, cur...)
+	}
+	if out.Kind == wz.KOK {
+		for _, r := range rs {
+			errnos = append(errnos, uint32(r))
+		}
+	}
+	h := sha256.Sum256(final)
+	return []string{fmt.Sprintf("errnos=%v", errnos), "outcome=" + out.String(), "memory sha256=" + hexOf(h[:16])}, errnos, final, nil
+}
+
+// preUse instantiates a guest with the config value mc and a context carrying experimental
+// settings, before the guests under test use the same value with plain contexts.
+func preUse(rt wazero.Runtime, mc wazero.ModuleConfig, kind string) error {
+	if kind == "" {
+		return nil
+	}
 	ctx := context.Background()
+	keep := strings.HasSuffix(kind, "-keep")
+	kind = strings.TrimSuffix(kind, "-keep")
+	if strings.Contains(kind, "sock") {
+		ctx = sock.WithConfig(ctx, sock.NewConfig().WithTCPListener("127.0.0.1", 0))
+	}
+	if strings.Contains(kind, "notifier") {
+		ctx = experimental.WithCloseNotifier(ctx, experimental.CloseNotifyFunc(func(context.Context, uint32) {}))
+	}
+	p, err := wasiproxy.New(ctx, rt, mc, 1, 1)
+	if err != nil {
+		if strings.Contains(err.Error(), "listen") || strings.Contains(err.Error(), "bind") {
+			evid.Label("pre-use-skipped-cannot-listen", 1)
+			return nil
+		}
+		return fmt.Errorf("pre-use (%s): %w", kind, err)
+	}
+	// that guest legitimately sees its listener
+	p.Call(context.Background(), "fd_fdstat_get", 3, mRes)
+	if !keep {
+		p.Mod.Close(context.Background())
+	}
+	return nil
+}
+
+// runEngine runs the script under the default ModuleConfig on the engine. One ModuleConfig
+// value (wazero.NewModuleConfig(), possibly used before: see preUse) serves all guests:
+// runtime A with two proxy guests (both created before either runs) and, if full, runtime B
+// with one that runs the variant; then the script compiled into one guest function, on one
+// (full: two) more guests of runtime A.
+func runEngine(engine string, c caseT, markers [][]byte, full bool) ([]runResult, []string, error) {
+	ctx := context.Background()
+	sc := c.Script
 	var out []runResult
 	var names []string
 	rtA := wazero.NewRuntimeWithConfig(ctx, wz.Config(engine))
 	defer rtA.Close(ctx)
-	p1, err := wasiproxy.New(ctx, rtA, nil, 1, 1)
+	mc := wazero.NewModuleConfig()
+	if err := preUse(rtA, mc, c.PreUse); err != nil {
+		return nil, nil, err
+	}
+	p1, err := wasiproxy.New(ctx, rtA, mc, 1, 1)
 	if err != nil {
 		return nil, nil, err
 	}
 	var p2 *wasiproxy.Proxy
 	if full {
-		if p2, err = wasiproxy.New(ctx, rtA, nil, 1, 1); err != nil {
+		if p2, err = wasiproxy.New(ctx, rtA, mc, 1, 1); err != nil {
 			return nil, nil, err
 		}
 	}
 	out = append(out, runScript(p1, sc, markers))
 	names = append(names, engine+"/runtimeA/instance1")
-	if full && len(out[0].Slow) == 0 {
+	if len(out[0].Slow) > 0 {
+		return out, names, nil
+	}
+	if full {
 		out = append(out, runScript(p2, sc, markers))
 		names = append(names, engine+"/runtimeA/instance2")
 		rtB := wazero.NewRuntimeWithConfig(ctx, wz.Config(engine))
 		defer rtB.Close(ctx)
-		p3, err := wasiproxy.New(ctx, rtB, nil, 1, 1)
+		p3, err := wasiproxy.New(ctx, rtB, mc, 1, 1)
 		if err != nil {
 			return nil, nil, err
 		}
 		out = append(out, runScript(p3, variant(sc), markers))
 		names = append(names, engine+"/runtimeB/instance1 running the variant (every call made the other way, direct<->through the table, with background contexts)")
+	}
+	for _, r := range out {
+		if len(r.Slow) > 0 {
+			return out, names, nil
+		}
+	}
+	// the same script as one guest function
+	bin, _ := programBinary(sc)
+	cm, err := rtA.CompileModule(ctx, bin)
+	if err != nil {
+		return nil, nil, fmt.Errorf("compiling the script guest: %w", err)
+	}
+	n := 1
+	if full {
+		n = 2
+	}
+	for k := 0; k < n; k++ {
+		lines, errnos, final, err := runInGuest(ctx, rtA, cm, mc)
+		if err != nil {
+			return nil, nil, err
+		}
+		if k == 0 {
+			out[0].InGuest = lines
+			// call-by-call and in-guest execution of the same calls must agree
+			if ref := out[0]; ref.allOK && len(errnos) > 0 {
+				for q := range errnos {
+					if q < len(ref.errnos) && errnos[q] != ref.errnos[q] {
+						out[0].Problems = append(out[0].Problems, fmt.Sprintf("call %d of prologue+script (%s) returns errno %d when the guest makes all calls from one function, %d when called alone", q, append(prologueCalls(), sc...)[q].Fn, errnos[q], ref.errnos[q]))
+						break
+					}
+				}
+				if len(out[0].Problems) == 0 && !bytes.Equal(final, ref.final) {
+					at := 0
+					for at < len(final) && at < len(ref.final) && final[at] == ref.final[at] {
+						at++
+					}
+					out[0].Problems = append(out[0].Problems, fmt.Sprintf("guest memory after the script differs between one-function and call-by-call execution (first at offset %d)", at))
+				}
+			}
+		} else if strings.Join(lines, "\n") != strings.Join(out[0].InGuest, "\n") {
+			out[0].Problems = append(out[0].Problems, "the script compiled into one guest function gives different results on two instances of one runtime")
+			out[0].InGuest = append(out[0].InGuest, "second instance:")
+			out[0].InGuest = append(out[0].InGuest, lines...)
+		}
 	}
 	return out, names, nil
 }
@@ -696,9 +910,9 @@ func runEngine(engine string, sc []call, markers [][]byte, full bool) ([]runResu
 // runEngineChecked is runEngine with the timing oracle: when a call took real time the run is
 // abandoned and the script executed again, up to 3 times. Only a delay that shows up every
 // time is reported (slow != ""); a loaded machine can delay one call, a real sleep repeats.
-func runEngineChecked(engine string, sc []call, markers [][]byte, full bool) (rs []runResult, names []string, slow string, err error) {
+func runEngineChecked(engine string, c caseT, markers [][]byte, full bool) (rs []runResult, names []string, slow string, err error) {
 	for attempt := 0; attempt < 3; attempt++ {
-		if rs, names, err = runEngine(engine, sc, markers, full); err != nil {
+		if rs, names, err = runEngine(engine, c, markers, full); err != nil {
 			return nil, nil, "", err
 		}
 		slow = ""
@@ -813,20 +1027,67 @@ type violation struct{ msg, detail string }
 
 // runLocal executes the script in this process on both engines and returns the reference
 // trace and the first violation (nil if none).
-func runLocal(sc []call, markers [][]byte) (ref []string, v *violation, err error) {
+// guestDiff compares two results of the script run as one guest function; stable names the
+// first difference without observed values.
+func guestDiff(a, b []string, sc []call) (stable, detail string) {
+	if strings.Join(a, "\n") == strings.Join(b, "\n") {
+		return "", ""
+	}
+	detail = "reference: " + strings.Join(a, " | ") + "\nthis run:  " + strings.Join(b, " | ")
+	if len(a) < 3 || len(b) < 3 {
+		return "one of the runs has no result", detail
+	}
+	if a[0] != b[0] {
+		fa := strings.Fields(strings.Trim(strings.TrimPrefix(a[0], "errnos="), "[]"))
+		fb := strings.Fields(strings.Trim(strings.TrimPrefix(b[0], "errnos="), "[]"))
+		all := append(prologueCalls(), sc...)
+		for i := 0; i < len(fa) && i < len(fb); i++ {
+			if fa[i] != fb[i] {
+				fn := "?"
+				if i < len(all) {
+					fn = all[i].Fn
+				}
+				return fmt.Sprintf("the errno of call %d of prologue+script (%s) differs", i, fn), detail
+			}
+		}
+		return "the number of returned errnos differs", detail
+	}
+	if a[1] != b[1] {
+		return "the outcome of the run differs", detail
+	}
+	return "the final guest memory differs", detail
+}
+
+// reference is what every other run is compared with: the call-by-call trace and the result
+// of the script run as one guest function, both from interpreter/runtimeA/instance1.
+type reference struct {
+	trace []string
+	guest []string
+}
+
+func runLocal(c caseT, markers [][]byte) (ref reference, v *violation, err error) {
+	sc := c.Script
 	type done struct {
-		ref []string
-		v   *violation
-		err error
+		ref   []string
+		guest []string
+		v     *violation
+		err   error
 	}
 	ch := make(chan done, 1)
 	go func() {
 		var d done
 		for _, eng := range wz.Engines {
-			rs, names, slow, err := runEngineChecked(eng, sc, markers, true)
+			rs, names, slow, err := runEngineChecked(eng, c, markers, true)
 			if err != nil {
 				d.err = err
 				break
+			}
+			if slow == "" {
+				if d.guest == nil {
+					d.guest = rs[0].InGuest
+				} else if st, det := guestDiff(d.guest, rs[0].InGuest, sc); st != "" && d.v == nil {
+					d.v = &violation{fmt.Sprintf("the script compiled into one guest function gives different results on %s than on the interpreter: %s", eng, st), det}
+				}
 			}
 			if slow != "" {
 				if d.v == nil {
@@ -851,10 +1112,10 @@ func runLocal(sc []call, markers [][]byte) (ref []string, v *violation, err erro
 	}()
 	select {
 	case d := <-ch:
-		return d.ref, d.v, d.err
+		return reference{d.ref, d.guest}, d.v, d.err
 	case <-time.After(60 * time.Second):
 		f := scriptFeatures(sc)
-		return nil, &violation{fmt.Sprintf("the script did not finish within 60 s in this process (asks for long sleeps: %v): the default configuration must not really sleep or block", f.longSleep), ""}, nil
+		return reference{}, &violation{fmt.Sprintf("the script did not finish within 60 s in this process (asks for long sleeps: %v): the default configuration must not really sleep or block", f.longSleep), ""}, nil
 	}
 }
 
@@ -909,7 +1170,8 @@ type childOut struct {
 var childSeq int
 
 // spawnChild starts this test binary as a fresh process configured by childPool[idx].
-func spawnChild(idx int, script []call) (childOut, string, error) {
+func spawnChild(idx int, script caseT) (childOut, string, error) {
+	script.Children, script.Observed = nil, nil
 	cfg := childPool[idx%len(childPool)]
 	childSeq++
 	base := filepath.Join(evid.WorkDir(), fmt.Sprintf("child-%d-%d", childSeq, idx))
@@ -996,8 +1258,8 @@ func TestChild(t *testing.T) {
 		co.Error = err.Error()
 		return
 	}
-	var sc []call
-	if err := json.Unmarshal(b, &sc); err != nil {
+	var cs caseT
+	if err := json.Unmarshal(b, &cs); err != nil {
 		co.Error = err.Error()
 		return
 	}
@@ -1006,7 +1268,7 @@ func TestChild(t *testing.T) {
 	now := time.Now()
 	co.Info = map[string]string{"tz": os.Getenv("TZ"), "local": now.Format(time.RFC3339Nano), "env": fmt.Sprint(len(os.Environ())), "args": fmt.Sprint(len(os.Args)), "markers": fmt.Sprint(len(markers))}
 	for _, eng := range wz.Engines {
-		rs, _, slow, err := runEngineChecked(eng, sc, markers, false)
+		rs, _, slow, err := runEngineChecked(eng, cs, markers, false)
 		if err != nil {
 			co.Error = err.Error()
 			return
@@ -1020,7 +1282,7 @@ func TestChild(t *testing.T) {
 }
 
 // runChildren runs the script in the listed child processes (concurrently) and compares.
-func runChildren(sc []call, children []int, ref []string) (v *violation, err error) {
+func runChildren(c caseT, children []int, ref reference) (v *violation, err error) {
 	type cres struct {
 		co  childOut
 		std string
@@ -1032,7 +1294,7 @@ func runChildren(sc []call, children []int, ref []string) (v *violation, err err
 		wg.Add(1)
 		go func(i, idx int) {
 			defer wg.Done()
-			co, std, err := spawnChild(idx, sc)
+			co, std, err := spawnChild(idx, c)
 			out[i] = cres{co, std, err}
 		}(i, idx)
 	}
@@ -1050,8 +1312,11 @@ func runChildren(sc []call, children []int, ref []string) (v *violation, err err
 			if len(rr.Problems) > 0 {
 				return &violation{fmt.Sprintf("child process %d (%s): %s", idx, eng, strings.Join(rr.Problems, "; ")), fmt.Sprintf("child: %v", r.co.Info)}, nil
 			}
-			if st, det := firstDiff(ref, rr.Trace); st != "" {
+			if st, det := firstDiff(ref.trace, rr.Trace); st != "" {
 				return &violation{fmt.Sprintf("trace in child process %d (%s) differs from the trace in the parent process: %s", idx, eng, st), fmt.Sprintf("child: %v\n%s", r.co.Info, det)}, nil
+			}
+			if st, det := guestDiff(ref.guest, rr.InGuest, c.Script); st != "" {
+				return &violation{fmt.Sprintf("the script compiled into one guest function gives different results in child process %d (%s) than in the parent process: %s", idx, eng, st), fmt.Sprintf("child: %v\n%s", r.co.Info, det)}, nil
 			}
 		}
 	}
@@ -1309,12 +1574,12 @@ func runCase(c caseT) (v *violation, err error) {
 	}
 	parentMarkersOnce.Do(func() { parentMarkers = hostMarkers() })
 	evid.Journal(c)
-	ref, v, err := runLocal(c.Script, parentMarkers)
+	ref, v, err := runLocal(c, parentMarkers)
 	if err != nil || v != nil {
 		return v, err
 	}
 	if len(c.Children) > 0 {
-		return runChildren(c.Script, c.Children, ref)
+		return runChildren(c, c.Children, ref)
 	}
 	return nil, nil
 }
@@ -1335,6 +1600,8 @@ func record(c caseT) {
 	add(f.procExit, "script-calls-proc_exit")
 	add(len(c.Children) > 0, "script-run-in-child-processes")
 	add(f.indirect, "script-has-call-through-table")
+	add(c.PreUse != "", "config-value-used-before-with-experimental-context")
+	add(strings.Contains(c.PreUse, "sock"), "config-value-used-before-with-sock-context")
 	add(f.cancellable, "script-has-call-with-cancellable-context")
 	add(f.sleepWithCancellable, "script-asks-long-sleep-with-cancellable-context")
 	evid.Case(caseKey(c), f.clock && f.random && f.exposing, lbls...)
@@ -1358,7 +1625,7 @@ func TestProcesses(t *testing.T) {
 		nchildren = 5
 	}
 	evid.Check(t, "child-processes", evid.Scale(480, 9600), func(t *rapid.T) {
-		c := caseT{Script: genScript(t)}
+		c := caseT{Script: genScript(t), PreUse: genPreUse(t)}
 		perm := rapid.Permutation([]int{0, 1, 2, 3, 4, 5, 6, 7}).Draw(t, "children")
 		c.Children = perm[:nchildren]
 		v, err := runCase(c)
@@ -1379,8 +1646,8 @@ func TestInProcess(t *testing.T) {
 	if evid.ReplayPath() != "" || os.Getenv("C18_CHILD") != "" {
 		t.Skip()
 	}
-	evid.Check(t, "in-process", evid.Scale(4000, 240000), func(t *rapid.T) {
-		c := caseT{Script: genScript(t)}
+	evid.Check(t, "in-process", evid.Scale(3200, 200000), func(t *rapid.T) {
+		c := caseT{Script: genScript(t), PreUse: genPreUse(t)}
 		v, err := runCase(c)
 		if err != nil {
 			t.Fatalf("harness: %v", err)
